@@ -347,6 +347,23 @@ impl StreamsState {
         self.streams_blocked = [false; 2];
     }
 
+    /// After a rejected 0-RTT attempt, queue the flow control updates the peer does not know about
+    ///
+    /// Updates caused by the application during the attempt (`set_receive_window`,
+    /// `set_max_concurrent`) were announced in 0-RTT packets the peer never processed, or were
+    /// still queued. The peer only knows `initial_max_data` and the stream counts from our
+    /// transport parameters.
+    pub(crate) fn requeue_flow_control(
+        &mut self,
+        initial_max_data: VarInt,
+        pending: &mut Retransmits,
+    ) {
+        if self.local_max_data > initial_max_data.into_inner() {
+            pending.max_data = true;
+        }
+        self.queue_max_stream_id(pending);
+    }
+
     /// Process incoming stream frame
     ///
     /// If successful, returns whether a `MAX_DATA` frame needs to be transmitted
